@@ -1,4 +1,5 @@
-"""C08 - Greeks are the derivatives of the price."""
+"""C08 - Greeks are the derivatives of the price.
+Added after the seeded-defect rounds: R4s automatic Greeks for pricers parameterised by variance / log-moneyness only; R6 precision provenance of the closed-form Greeks and of npdf/ncdf/d1/d2."""
 import sympy as sp
 
 from .. import bsterms as B
